@@ -341,6 +341,14 @@ def run_inputs(ck, F):
                        "looks at one of its operands" % (u, len(have), sig, sorted(have), n), "%s:%s" % (fn["file"], fn["line"]))
 
 
+def _unit_closures(crate, fn):
+    fns, i = [fn], 0
+    while i < len(fns):
+        fns += [c for c in crate.closures_of.get(fns[i]["id"], []) if "mir" in c]
+        i += 1
+    return fns[1:]
+
+
 def unit_profile(F, fn):
     crate = F.crate(fn["id"].lstrip("<").split("::", 1)[0])
     fns, i = [fn], 0
@@ -360,7 +368,8 @@ def guard_profile_table(F):
         if fn is not None:
             p = unit_profile(F, fn)
             if p:
-                out[u] = p
+                crate_ = F.crate(fn["id"].lstrip("<").split("::", 1)[0])
+                out[u] = {"profile": p, "closures": len(_unit_closures(crate_, fn))}
     return out
 
 
@@ -376,6 +385,15 @@ def run_conditional(ck, F):
             ck.missing_anchor(u, "C09.validation-not-made-conditional")
             continue
         cur = unit_profile(F, fn)
+        crate_ = F.crate(fn["id"].lstrip("<").split("::", 1)[0])
+        ncl = len(_unit_closures(crate_, fn))
+        if isinstance(ref, dict):
+            ref_ncl, ref = ref["closures"], ref["profile"]
+        else:
+            ref_ncl = ncl
+        if ncl != ref_ncl or flow.calls_new_function(F, fn):
+            ck.ok("C09.validation-not-made-conditional", u, "not compared: the unit was restructured (closures %d -> %d, or a new helper is called)" % (ref_ncl, ncl))
+            continue
         worst = None
         for k in sorted(set(ref)):
             r = sum(1 for d in ref if d <= k)
